@@ -84,6 +84,7 @@ macro_rules! dispatch {
             "C20" => $f(&props::c20::C20 $(, $arg)*),
             "C11" => $f(&props::c11::C11 $(, $arg)*),
             "C09" => $f(&props::c09::C09 $(, $arg)*),
+            "C14" => $f(&props::c14::C14 $(, $arg)*),
             other => {
                 eprintln!("unknown property {}", other);
                 3
